@@ -7,6 +7,7 @@ import BqVerif.Proofs.Structural
 import BqVerif.Proofs.Walsh
 import BqVerif.Proofs.Demultiplex
 import BqVerif.Proofs.BlockZXZ
+import BqVerif.Proofs.Mux
 /-! # C10 — every circuit-rewriting pass preserves its target within stated tolerance
 
 Four classes (DESIGN.md §4 C10, design_notes/C10.md):
@@ -384,5 +385,45 @@ example : Setup (Complex.I : ℂ) 1 0 0 1 1 0 1 1 1 1 :=
   { ii := Complex.I_mul_I, central := fun a => mul_comm a _, ux := by simp, uxd := by simp,
     uyd := by simp, comm := by simp, sq := by simp, hX := by simp, hY := by simp,
     orth := by simp }
+
+/-! ### Multiplexed-gate decomposition: the location re-ordering of `MGDPass.run`
+(strengthening round, seeded change C10-1) -/
+
+open BqVerif.Mux in
+/-- `MGDPass.run` re-orders the location of an `MPRY/MPRZ(n, t)` operation into
+`loc[0:t] + loc[t+1:] + [loc[t]]` (`moveLast`, compared with the locations the real pass hands to
+`batch_replace`). For every location list and every target index inside it: the expression does not
+raise, the result has the same length and is a permutation of `loc`, and the LAST-target gate placed
+there gives every circuit qudit the role it had under the target-`t` gate at `loc`: the same target
+qudit and the same select qudits IN THE SAME ORDER (`roles`: most significant select bit first). -/
+theorem C10_mgd_target_last (loc : List Nat) (t : Nat) (h : t < loc.length) :
+    ∃ r, moveLast loc t = some r ∧ r.length = loc.length ∧ r.Perm loc ∧
+      r.getLast? = some loc[t] ∧ r.dropLast = loc.eraseIdx t ∧
+      roles r (loc.length - 1) = roles loc t := by
+  refine ⟨_, moveLast_eq h, ?_, perm_moveLast h, by simp, by simp, roles_moveLast h⟩
+  simp [length_eraseIdx_lt h]; omega
+
+/-- Non-vacuity and a check that the statement separates the code from a rotation of the list
+(`loc[t+1:] + loc[:t+1]`, which would give `[7, 5, 3]`: select qudits swapped). -/
+example : BqVerif.Mux.moveLast [5, 3, 7] 1 = some [5, 7, 3] := by decide
+
+open BqVerif.Mux in
+/-- Consequently, on EVERY computational basis state `σ` the last-target multiplexor at the
+re-ordered location applies the same entry `k` of the angle table to the same circuit qudit as the
+original operation (`act`; the harness compares `act` with the matrices of the real `MPRYGate` /
+`MPRZGate` for every width 2–4 and every target). That the circuits of
+`decompose_mpx_one_level/_two_levels` equal the last-target gate is validated numerically. -/
+theorem C10_mgd_same_action (loc : List Nat) (t : Nat) (h : t < loc.length) (σ : Nat → Bool) :
+    ∃ r, moveLast loc t = some r ∧ act r (loc.length - 1) σ = act loc t σ ∧
+      act loc t σ = some (selectIdx (loc.eraseIdx t) σ, loc[t]) := by
+  refine ⟨_, moveLast_eq h, by simp [act, roles_moveLast h], by simp [act, roles, h]⟩
+
+example : BqVerif.Mux.act [5, 3, 7] 1 (fun q => q == 7) = some (1, 3) := by decide
+
+open BqVerif.Mux in
+/-- The guard is exact: the re-ordering raises (Python `IndexError` at `loc[t]`) iff the target index
+is outside the location. -/
+theorem C10_mgd_move_raises (loc : List Nat) (t : Nat) : moveLast loc t = none ↔ loc.length ≤ t :=
+  moveLast_none
 
 end BqVerif.C10
